@@ -203,6 +203,18 @@ func prop(t *rapid.T) {
 	if garbage {
 		body = rapid.SliceOfN(rapid.Byte(), 0, 40).Draw(t, "bytes")
 	}
+	// malformed input of the announced format: an invalid percent escape in a form body, a JSON or XML document
+	// that breaks off before its end
+	malformed := false
+	if !garbage && bodyFormat != "multipart" && rapid.IntRange(0, 7).Draw(t, "malformedBody") == 0 {
+		malformed = true
+		switch bodyFormat {
+		case "form":
+			body = append(append([]byte{}, body...), rapid.SampledFrom([]string{"&tags=%zz", "&name=a%", "&%z=1", "&age=1%zz"}).Draw(t, "badEscape")...)
+		default:
+			body = body[:len(body)-rapid.IntRange(1, 3).Draw(t, "cutOff")]
+		}
+	}
 	// how the body arrives: at once, or in pieces (a real connection delivers large bodies in several reads)
 	var bodyReader io.Reader = bytes.NewReader(body)
 	readerKind := rapid.SampledFrom([]string{"whole", "whole", "one-byte", "half", "data-with-EOF"}).Draw(t, "bodyReader")
@@ -238,7 +250,7 @@ func prop(t *rapid.T) {
 	var got Payload
 	err, pv := bindVia(entry, req, &got)
 	ev.Eval()
-	ctx := fmt.Sprintf("%s %s validator=%v Content-Type=%q (%s) body format=%s garbage=%v\n query value %+v\n body value  %+v\n body %q", entry, method, validator, ct, ctKind, bodyFormat, garbage, pQuery.norm(), pBody.norm(), body)
+	ctx := fmt.Sprintf("%s %s validator=%v Content-Type=%q (%s) body format=%s garbage=%v malformed=%v\n query value %+v\n body value  %+v\n body %q", entry, method, validator, ct, ctKind, bodyFormat, garbage, malformed, pQuery.norm(), pBody.norm(), body)
 	if pv != nil {
 		t.Fatalf("panic %v: %s", pv, ctx)
 	}
@@ -257,6 +269,11 @@ func prop(t *rapid.T) {
 		ev.Class("source:unsupported-content-type->error")
 	case garbage:
 		ev.Class("source:arbitrary-bytes")
+	case malformed && ctFormat == bodyFormat:
+		if err == nil {
+			t.Fatalf("malformed %s body but binding succeeded with %+v: %s", bodyFormat, got.norm(), ctx)
+		}
+		ev.Class("source:malformed-body-of-the-announced-format->error")
 	case ctFormat == bodyFormat:
 		want = &pBody
 		ev.Class("source:" + ctFormat)
@@ -376,3 +393,70 @@ func propExplicit(t *rapid.T) {
 }
 
 func TestPropExplicit(t *testing.T) { rapid.Check(t, propExplicit) }
+
+// Inner / Outer: a bindable struct whose only validation rule sits in a nested struct.
+type Inner struct {
+	Code string `json:"code" xml:"code" form:"code" query:"code" validate:"required"`
+}
+
+type Outer struct {
+	XMLName xml.Name `xml:"outer" json:"-" form:"-" query:"-"`
+	ID      int      `json:"id" xml:"id" form:"id" query:"id"`
+	Inner   Inner    `json:"inner" xml:"inner" form:"inner" query:"inner"`
+}
+
+// propNested: "a successful bind implies that the struct passed validation" also when the rules belong to a nested
+// struct.  The independent validate run is the oracle, as in TestProp.
+func propNested(t *rapid.T) {
+	ev.Case()
+	binding.ResetValidator()
+	validator := rapid.IntRange(0, 3).Draw(t, "validatorEnabled") > 0
+	if !validator {
+		binding.DisableValidator()
+		defer binding.ResetValidator()
+	}
+	v := Outer{ID: rapid.IntRange(0, 99).Draw(t, "id"), Inner: Inner{Code: rapid.SampledFrom([]string{"", "", "a", "xy"}).Draw(t, "code")}}
+	format := rapid.SampledFrom([]string{"json", "xml", "form", "query", "json-bytes"}).Draw(t, "format")
+	var got Outer
+	var err error
+	vals := url.Values{"id": {strconv.Itoa(v.ID)}, "inner.code": {v.Inner.Code}}
+	switch format {
+	case "json":
+		b, _ := json.Marshal(v)
+		req := httptest.NewRequest("POST", "/x", bytes.NewReader(b))
+		req.Header.Set("Content-Type", "application/json")
+		err = binding.Auto(req, &got)
+	case "json-bytes":
+		b, _ := json.Marshal(v)
+		err = binding.JSON.BindBytes(b, &got)
+	case "xml":
+		b, _ := xml.Marshal(v)
+		req := httptest.NewRequest("PUT", "/x", bytes.NewReader(b))
+		req.Header.Set("Content-Type", "text/xml")
+		err = binding.Auto(req, &got)
+	case "form":
+		req := httptest.NewRequest("PATCH", "/x", strings.NewReader(vals.Encode()))
+		req.Header.Set("Content-Type", "application/x-www-form-urlencoded")
+		err = binding.Auto(req, &got)
+	default:
+		err = binding.Auto(httptest.NewRequest("GET", "/x?"+vals.Encode(), nil), &got)
+	}
+	ev.Eval()
+	ctx := fmt.Sprintf("%s validator=%v value %+v: err=%v bound %+v", format, validator, v, err, got)
+	if err == nil && (got.ID != v.ID || got.Inner.Code != v.Inner.Code) {
+		t.Fatalf("round trip: %s", ctx)
+	}
+	valid := validate.New(&v).Validate()
+	if validator && err == nil && !valid {
+		t.Fatalf("bind succeeded although the value does not pass validation (rule in a nested struct): %s", ctx)
+	}
+	if err != nil && (valid || !validator) {
+		t.Fatalf("unexpected error: %s", ctx)
+	}
+	if !valid {
+		ev.Class("nested-rule-violated")
+		ev.NonTrivial(ctx, func() string { return ctx })
+	}
+}
+
+func TestPropNested(t *testing.T) { rapid.Check(t, propNested) }
